@@ -36,7 +36,8 @@ def main():
         race = "-race" in json.dumps(meta)
         files = demo_files(d)
         tests = [f for f in files if f.endswith("_test.go")]
-        r = {"property": pid, "race": race}
+        breaks = pid if re.match(r"C\d\d$", pid) else str(meta.get("property", ""))[:3]
+        r = {"property": breaks, "race": race}
         # demo on the unchanged tree
         place(files)
         rc0, out0 = run_demo(meta, race)
@@ -64,7 +65,7 @@ def main():
             for f in files:
                 shutil.copy(f, dest)
             m = dict(meta)
-            m.update({"breaks": pid, "base_commit": os.environ.get("SEED_BASE", "ee37739"), "confirmed_by": "tools/seedconfirm.py: patch applied to a scratch worktree of /repo; "
+            m.update({"breaks": breaks, "base_commit": os.environ.get("SEED_BASE", "ee37739"), "confirmed_by": "tools/seedconfirm.py: patch applied to a scratch worktree of /repo; "
                       "`go test -count=1 ./...` (existing suite) passes with the change; the demonstration test passes on the unchanged tree and fails with the change" + (" (run with -race)" if race else "")})
             json.dump(m, open(dest + "/meta.json", "w"), indent=1)
         print(name, r["status"], {k: v for k, v in r.items() if k not in ("out0", "out1", "status")}, flush=True)
